@@ -24,6 +24,7 @@ Recipe pool_recipe(uint64_t master, uint64_t idx, bool many) {
   r.seed = g.next() % 100000; r.ncomm = (int)g.below(4);
   if (g.chance(0.12) && r.n > 6000) r.cut = 1 + (int)g.below(30);
   if (!r.cut && r.n > 4000 && g.chance(0.10)) { r.trim = 1 + (int)g.below(300); r.tk = 2; }   // two packets per page: the decoder can only trim a short first page correctly while nothing of it has been returned yet (DESIGN 13.3)
+  if (g.chance(0.08)) r.modes3 = 1 + (int)g.below(2);
   if (r.ch >= 2 && r.ch <= 8 && g.chance(0.15)) r.mute = 1 + (int)g.below((1u << r.ch) - 2);
   return r;
 }
